@@ -86,7 +86,10 @@ Fixpoint w_arr (fuel : nat) (v5 : bool) (a : parr) (s l : nat) (proper : bool) {
                 (w_arr f v5 (kid 0) 0 (p_len (kid 0)) false)
   | TFixedList n _ _ =>
       let k := Z.to_nat n in
-      wcat pre (w_arr f v5 (kid 0) (off * k) (l * k) false)
+      (* the writer cuts the child with ArrayData::slice(offset*k, len*k); when this array is itself an Array-level
+         slice (RunArray values), FixedSizeListArray::slice has already cut the child at the Array level and
+         into_data() dropped a child null buffer without nulls in the range: the kind of slice is inherited *)
+      wcat pre (w_arr f v5 (kid 0) (off * k) (l * k) proper)
   | TStruct _ =>
       (* ArrayData::slice of a struct slices its children; the struct's own offset is not used *)
       wcat pre (wconcat (map (fun c => w_arr f v5 c s l proper) (p_kids a)))
